@@ -66,6 +66,10 @@ class Mutator:
     def mutate(self, inp: DerivationTree) -> DerivationTree:
         target_num_mutations = random.randint(self.min_mutations, self.max_mutations)
 
+        if not any(subtree.children for _, subtree in inp.paths()):
+            # There is no position at which `inp` could be mutated.
+            return inp
+
         applied_mutations = 0
 
         def inc_applied_mutations(_):
@@ -85,6 +89,8 @@ class Mutator:
         ]
 
         num_candidate_paths = len(candidate_paths)
+        if not candidate_paths:
+            return Nothing
 
         # Decrease weights for paths with many children: Prefer local mutations.
         path, subtree = random.choices(
